@@ -1,0 +1,48 @@
+//go:build verif
+
+package kmip
+
+import "github.com/ovh/kmip-go/ttlv"
+
+// Mirror lemmas (C01): a hand-written decoder reads back, field by field, what the matching encoder (hand
+// written or reflective) emits, and leaves no element unread. The real TagEncodeTTLV / TagDecodeTTLV
+// methods and the real ttlv.Encoder / ttlv.Decoder methods run symbolically over an abstract element tape;
+// reflection is replaced by the assumed contracts listed in the evidence. Compiled only with -tags verif.
+
+//@ lemma lemmaMirrorRequestBatchItem
+//@   requires pv != nil && out != nil && pv != out && pv.RequestPayload != nil && !tapeDropped
+//@   requires out.Operation == 0 && len(out.UniqueBatchItemID) == 0 && out.RequestPayload == nil && out.MessageExtension == nil
+//@   usebody (*Encoder).Struct$1
+//@   usebody (*Decoder).Struct$1
+//@   ensures err == nil && end && !tapeDropped
+//@   ensures out.Operation == pv.Operation && out.RequestPayload == pv.RequestPayload && out.MessageExtension == pv.MessageExtension
+//@   ensures len(pv.UniqueBatchItemID) > 0 ==> len(out.UniqueBatchItemID) == len(pv.UniqueBatchItemID) && arr(out.UniqueBatchItemID) == arr(pv.UniqueBatchItemID)
+
+func lemmaMirrorRequestBatchItem(pv, out *RequestBatchItem) (err error, end bool) {
+	e := ttlv.VerifModelEncoder()
+	pv.TagEncodeTTLV(&e, TagBatchItem)
+	d := ttlv.VerifModelDecoder(&e)
+	err = out.TagDecodeTTLV(&d, TagBatchItem)
+	return err, ttlv.VerifTapeEnd(&d)
+}
+
+//@ lemma lemmaMirrorResponseBatchItem
+//@   requires pv != nil && out != nil && pv != out && !tapeDropped
+//@   requires pv.Operation != 0 ==> pv.ResponsePayload != nil
+//@   requires pv.Operation == 0 ==> pv.ResponsePayload == nil
+//@   requires out.Operation == 0 && len(out.UniqueBatchItemID) == 0 && out.ResultStatus == 0 && out.ResultReason == 0 && out.ResultMessage == "" && len(out.AsynchronousCorrelationValue) == 0 && out.ResponsePayload == nil && out.MessageExtension == nil
+//@   usebody (*Encoder).Struct$1
+//@   usebody (*Decoder).Struct$1
+//@   ensures err == nil && end && !tapeDropped
+//@   ensures out.Operation == pv.Operation && out.ResultStatus == pv.ResultStatus && out.ResultReason == pv.ResultReason && out.ResultMessage == pv.ResultMessage
+//@   ensures out.ResponsePayload == pv.ResponsePayload && out.MessageExtension == pv.MessageExtension
+//@   ensures len(pv.UniqueBatchItemID) > 0 ==> len(out.UniqueBatchItemID) == len(pv.UniqueBatchItemID) && arr(out.UniqueBatchItemID) == arr(pv.UniqueBatchItemID)
+//@   ensures len(pv.AsynchronousCorrelationValue) > 0 ==> len(out.AsynchronousCorrelationValue) == len(pv.AsynchronousCorrelationValue) && arr(out.AsynchronousCorrelationValue) == arr(pv.AsynchronousCorrelationValue)
+
+func lemmaMirrorResponseBatchItem(pv, out *ResponseBatchItem) (err error, end bool) {
+	e := ttlv.VerifModelEncoder()
+	pv.TagEncodeTTLV(&e, TagBatchItem)
+	d := ttlv.VerifModelDecoder(&e)
+	err = out.TagDecodeTTLV(&d, TagBatchItem)
+	return err, ttlv.VerifTapeEnd(&d)
+}
